@@ -382,4 +382,121 @@ theorem parseEmsg_encodeEmsg (b : EmsgBox) (h : b.wf) : parseEmsg (encodeEmsg b)
       c1 _ _ hs, c1 _ _ hval, beNat_beBytes _ _ hf, beNat_beBytes _ _ hts, beNat_beBytes _ _ ht,
       beNat_beBytes _ _ hd, beNat_beBytes _ _ hid]
 
+/-! ### integer option texts -/
+
+theorem digitVal_digitChar : ∀ d, d < 10 → digitVal (Nat.digitChar d) = some d := by decide
+theorem digitChar_ne_us : ∀ d, d < 10 → Nat.digitChar d ≠ '_' := by decide
+theorem digitChar_not_ws : ∀ d, d < 10 → isPyWs (Nat.digitChar d) = false := by decide
+theorem digitChar_not_sign : ∀ d, d < 10 →
+    Nat.digitChar d ≠ '-' ∧ Nat.digitChar d ≠ '+' ∧ Nat.digitChar d ≠ 'n' := by decide
+
+/-- a string of decimal digit characters -/
+def IsDigits (l : List Char) : Prop := ∀ c ∈ l, ∃ d, d < 10 ∧ c = Nat.digitChar d
+
+theorem readDigits_single (d : Nat) (hd : d < 10) (acc : Nat) (prev : Bool) :
+    readDigits [Nat.digitChar d] acc prev = some (acc * 10 + d) := by
+  simp [readDigits, digitVal_digitChar d hd, digitChar_ne_us d hd]
+
+theorem readDigits_snoc (l : List Char) (hl : IsDigits l) (hne : l ≠ []) (d : Nat) (hd : d < 10) :
+    ∀ (acc : Nat) (prev : Bool) (v : Nat), readDigits l acc prev = some v →
+      readDigits (l ++ [Nat.digitChar d]) acc prev = some (v * 10 + d) := by
+  induction l with
+  | nil => exact absurd rfl hne
+  | cons c cs ih =>
+    intro acc prev v h
+    obtain ⟨e, he, rfl⟩ := hl _ List.mem_cons_self
+    have hcs : IsDigits cs := fun x hx => hl x (List.mem_cons_of_mem _ hx)
+    simp only [List.cons_append, readDigits, digitChar_ne_us e he, if_false, digitVal_digitChar e he] at h ⊢
+    by_cases hn : cs = []
+    · subst hn
+      simp only [readDigits, if_true] at h
+      injection h with h; subst h
+      exact readDigits_single d hd _ _
+    · exact ih hcs hn _ _ _ h
+
+/-- the decimal digits of `n` are digits, not empty, and read back as `n` -/
+theorem readDigits_toDigits (n : Nat) :
+    IsDigits (Nat.toDigits 10 n) ∧ Nat.toDigits 10 n ≠ [] ∧
+      readDigits (Nat.toDigits 10 n) 0 false = some n := by
+  induction n using Nat.strongRecOn with
+  | _ n ih =>
+    by_cases h : n < 10
+    · rw [Nat.toDigits_of_lt_base h]
+      refine ⟨?_, by simp, ?_⟩
+      · intro c hc; simp at hc; exact ⟨n, h, hc⟩
+      · rw [readDigits_single n h]; simp
+    · have hle : 10 ≤ n := by omega
+      rw [Nat.toDigits_of_base_le (by decide) hle]
+      obtain ⟨h1, h2, h3⟩ := ih (n / 10) (by omega)
+      have hm : n % 10 < 10 := Nat.mod_lt _ (by decide)
+      refine ⟨?_, by simp, ?_⟩
+      · intro c hc
+        rw [List.mem_append] at hc
+        rcases hc with hc | hc
+        · exact h1 c hc
+        · simp at hc; exact ⟨n % 10, hm, hc⟩
+      · rw [readDigits_snoc _ h1 h2 _ hm _ _ _ h3]
+        congr 1; omega
+
+theorem strip_digits (l : List Char) (hl : IsDigits l) :
+    ((l.dropWhile isPyWs).reverse.dropWhile isPyWs).reverse = l := by
+  have hd : ∀ m : List Char, IsDigits m → m.dropWhile isPyWs = m := by
+    intro m hm
+    cases m with
+    | nil => rfl
+    | cons c cs =>
+      obtain ⟨e, he, rfl⟩ := hm _ List.mem_cons_self
+      rw [List.dropWhile_cons_of_neg (by simp [digitChar_not_ws e he])]
+  have hr : IsDigits l.reverse := fun c hc => hl c (List.mem_reverse.mp hc)
+  rw [hd l hl, hd _ hr, List.reverse_reverse]
+
+theorem pyInt_digits (l : List Char) (hl : IsDigits l) :
+    pyInt l = (readDigits l 0 false).map fun n => (n : Int) := by
+  unfold pyInt
+  simp only [strip_digits l hl]
+  cases l with
+  | nil => simp [readDigits]
+  | cons c cs =>
+    obtain ⟨e, he, rfl⟩ := hl _ List.mem_cons_self
+    have := digitChar_not_sign e he
+    simp only [this.1, this.2.1, if_false]
+
+theorem pyInt_neg_digits (l : List Char) (hl : IsDigits l) :
+    pyInt ('-' :: l) = (readDigits l 0 false).map fun n => -(n : Int) := by
+  cases l with
+  | nil => decide
+  | cons c cs =>
+    unfold pyInt
+    have h1 : ('-' :: c :: cs).dropWhile isPyWs = '-' :: c :: cs := List.dropWhile_cons_of_neg (by decide)
+    rw [h1]
+    have hr : IsDigits (c :: cs).reverse := fun x hx => hl x (List.mem_reverse.mp hx)
+    have h2 : (('-' :: c :: cs).reverse).dropWhile isPyWs = ('-' :: c :: cs).reverse := by
+      rw [List.reverse_cons]
+      cases hrev : (c :: cs).reverse with
+      | nil => simp at hrev
+      | cons x xs =>
+        obtain ⟨e, he, rfl⟩ := hr _ (by rw [hrev]; exact List.mem_cons_self)
+        rw [List.cons_append, List.dropWhile_cons_of_neg (by simp [digitChar_not_ws e he])]
+    rw [h2, List.reverse_reverse]
+    simp
+
+/-- **`int(str(z), 10) = z`** for every integer, of any magnitude -/
+theorem pyInt_decimalOf (z : Int) : pyInt (decimalOf z) = some z := by
+  unfold decimalOf
+  split
+  · obtain ⟨h1, _, h3⟩ := readDigits_toDigits z.natAbs
+    rw [pyInt_neg_digits _ h1, h3]; simp; omega
+  · obtain ⟨h1, _, h3⟩ := readDigits_toDigits z.toNat
+    rw [pyInt_digits _ h1, h3]; simp; omega
+
+theorem decimalOf_ne (z : Int) : decimalOf z ≠ [] ∧ decimalOf z ≠ ['n', 'o', 'n', 'e'] := by
+  unfold decimalOf
+  split
+  · exact ⟨by simp, by simp⟩
+  · obtain ⟨h1, h2, _⟩ := readDigits_toDigits z.toNat
+    refine ⟨h2, ?_⟩
+    intro h
+    obtain ⟨e, he, hc⟩ := h1 'n' (by rw [h]; exact List.mem_cons_self)
+    exact (digitChar_not_sign e he).2.2 hc.symm
+
 end DashLive.Events
